@@ -58,11 +58,15 @@ deriving Repr, Inhabited
     `__func_local_parent_codeobj_weakref_beartype__` = `frame` (code object of the lexical parent whose locals are
     consulted at call time). `owner` = the decorated callable whose forward scope created it (each forward scope
     holds one proxy per name; proxies of different scopes are different classes with separate cache entries).
-    `__scope_name_beartype__` is the single module of the modelled program. -/
+    `__scope_name_beartype__` is the single module of the modelled program. `subbed` = the proxy is the SUBSCRIPTED
+    proxy `BeartypeForwardRefSubbableABC.__class_getitem__` made from the subscriptable one of the same name (a
+    different class, hence a cache entry of its own; its `__args_beartype__` are stored and never looked at, so
+    they are not part of the model). -/
 structure Proxy where
   owner : Nat
   path : List Name
   frame : Option Nat
+  subbed : Bool := false
 deriving DecidableEq, Repr, Inhabited
 
 /-- evaluated hint objects -/
@@ -95,13 +99,13 @@ def Heap.attrs : Heap → Nat → Scope
   | (i, sc) :: r, id => if i = id then sc else Heap.attrs r id
 
 /-- `getattr(v, n)` as far as hints need it; on an unresolved proxy the metaclass `__getattr__` answers with a
-    NEW proxy for the dotted name — created WITHOUT the parent code object (as the code does). -/
+    NEW subscriptable proxy for the dotted name — created WITHOUT the parent code object (as the code does). -/
 def getAttr (hp : Heap) (v : H) (n : Name) : Except Err H :=
   match v with
   | .obj id => match (hp.attrs id).get? n with
     | some w => .ok w
     | none => .error (.attr n)
-  | .fwd p => .ok (.fwd { p with path := p.path ++ [n], frame := none })
+  | .fwd p => .ok (.fwd { p with path := p.path ++ [n], frame := none, subbed := false })
   | _ => .error (.attr n)
 
 def H.isStr : H → Bool
@@ -112,13 +116,24 @@ def H.isStr : H → Bool
 def orH (x y : H) : Except Err H :=
   if x.isStr || y.isStr then .error .type else .ok (.bor x y)
 
+/-- `v[args]`. On an unresolved subscriptable proxy, `BeartypeForwardRefSubbableABC.__class_getitem__` →
+    `proxy_hint_pep484_ref_str_subbed` answers with a NEW, subscripted proxy of the same scope, the same name and the
+    same parent code object (`'Box[int]'` in a closure still finds the `Box` its enclosing function defines later);
+    the arguments are dropped (`BeartypeForwardRefSubbedABC`: "this ABC currently ignores subscription"). A subscripted
+    proxy has no `__class_getitem__`: subscripting it again is a TypeError. (A string in head position is not
+    Python — `'K'[int]` — and never submitted: the harness quotes such a subscription as a whole.) -/
+def subH (v : H) (args : List H) : Except Err H :=
+  match v with
+  | .fwd p => if p.subbed then .error .type else .ok (.fwd { p with subbed := true })
+  | _ => .ok (.sub v args)
+
 /-- Evaluation of a hint expression with name lookup `lk`. `tr = false`: Python evaluating an annotation (a string
     literal stays a string); `tr = true`: the text of a string hint being `eval`ed by the resolver (string literals
     inside it are resolved by the same resolver in the same scope, so quoting is transparent). -/
 def evalH (hp : Heap) (lk : Name → Except Err H) (tr : Bool) : HExpr → Except Err H
   | .name n => lk n
   | .attr e n => (evalH hp lk tr e).bind (fun v => getAttr hp v n)
-  | .sub e es => (evalH hp lk tr e).bind (fun v => (evalHs hp lk tr es).bind (fun vs => .ok (.sub v vs)))
+  | .sub e es => (evalH hp lk tr e).bind (fun v => (evalHs hp lk tr es).bind (fun vs => subH v vs))
   | .bor a b => (evalH hp lk tr a).bind (fun x => (evalH hp lk tr b).bind (fun y => orH x y))
   | .lit l => .ok (.lit l)
   | .quoted e => if tr then evalH hp lk tr e else .ok (.str e)
@@ -531,11 +546,13 @@ where
   | [] => true
   | e :: es => e.borFree && borFreeL es
 
-/-- the variant "strings only at the names": every name leaf selected by `q` becomes a string literal -/
+/-- the variant "strings only at the names": every name leaf selected by `q` becomes a string literal. The HEAD of
+    a subscription stays evaluated (`'K'[int]` subscripts a str: a TypeError); the harness writes a subscription whose
+    head is such a name as ONE string (`list['K[int]']`), which is `C07_equiv` for that sub-expression. -/
 def quoteLeaves (q : Name → Bool) : HExpr → HExpr
   | .name n => if q n then .quoted (.name n) else .name n
   | .attr e n => .attr e n                     -- attribute chains stay evaluated
-  | .sub e es => .sub (quoteLeaves q e) (quoteLeavesL q es)
+  | .sub e es => .sub e (quoteLeavesL q es)
   | .bor a b => .bor (quoteLeaves q a) (quoteLeaves q b)
   | .lit l => .lit l
   | .quoted e => .quoted e
@@ -626,12 +643,14 @@ def H.objId? : H → Option Nat
 /-- the `k`-th output's tags -/
 def tagsAt (outs : List Out) (k : Nat) : Option ((Nat × Nat) × (Nat × Nat)) := outs[k]?.bind Out.tags
 
-/-- attribute access only on sub-expressions all of whose names satisfy `bound` (used by `C07_late`: a dotted
-    name whose root is defined late is resolved by `modAttr`, stated separately) -/
+/-- attribute access and subscription only on sub-expressions all of whose names satisfy `bound` (used by
+    `C07_late`: a dotted name whose root is defined late is resolved by `modAttr`, a subscripted name defined late
+    by the subscripted proxy, which drops the arguments — both stated separately: `C07_late_dotted`,
+    `C07_late_subscripted`) -/
 def lateSafe (bound : Name → Bool) : HExpr → Bool
   | .name _ => true
   | .attr e _ => e.names.all bound
-  | .sub e es => lateSafe bound e && lateSafeL bound es
+  | .sub e es => e.names.all bound && lateSafeL bound es
   | .bor a b => lateSafe bound a && lateSafe bound b
   | .lit _ => true
   | .quoted e => lateSafe bound e
